@@ -132,8 +132,12 @@ class Ctx:
     def thorough(self):
         return self.tier == "thorough"
 
-    def fail(self, message, case):
-        raise PropertyFailure(message, case=jsonable(case), part=self._part)
+    def fail(self, message, case, expensive=False):
+        """expensive=True: every failing execution costs a whole line budget (non-termination); shrinking such a
+        failure would take hours, so the first failing case is reported as it is."""
+        exc = PropertyFailure(message, case=jsonable(case), part=self._part)
+        exc.expensive = expensive
+        raise exc
 
     # ---- engines ----------------------------------------------------------------
     def _settings(self, n, **kw):
@@ -160,7 +164,7 @@ class Ctx:
                 self._failing = exc
                 # deterministic shrink budget: stop at a failing attempt (so the reported case
                 # is a real failure) once enough executions have been spent on shrinking
-                if self._post_failure_calls > self._shrink_budget:
+                if self._post_failure_calls > self._shrink_budget or getattr(exc, "expensive", False):
                     raise StopShrink() from None
                 raise
         return wrapped
